@@ -219,7 +219,7 @@ def enumerate_crashes(ctx, prop, progs, classes, cap, second_crash=False):
                                    'replay': save_replay(ctx, 'crashprog', {'prog': prog, 'class': list(cls), 'point': None})})
             continue
         pts = die_points(hits, rng, cap)
-        ctx.notes.setdefault('hook_sites_seen', set()).update(hits.keys())
+        ctx.notes['hook_sites_seen'] = set(ctx.notes.get('hook_sites_seen', [])) | set(hits.keys())
         for pt in pts:
             sec = None
             if second_crash and rng.random() < 0.3:
@@ -387,6 +387,13 @@ def check_C02(ctx):
     ctx.samples = [[{'a': s['a'], 'op': s['op']} for s in progs[0]]]
     runs = enumerate_crashes(ctx, 'C02', progs[:(8 if ctx.quick() else 60)], CRASH_CLASSES, cap=6 if ctx.quick() else 10,
                              second_crash=not ctx.quick())
+    # committed regression programs around the 64 KB log buffer (large values, unsynced log, batches below / above the buffer)
+    cp = os.path.join(os.path.dirname(os.path.dirname(os.path.dirname(os.path.abspath(__file__)))), 'corpus', 'crash.ndjson')
+    if os.path.exists(cp):
+        cprogs = read_ndjson(cp)
+        runs += enumerate_crashes(ctx, 'C02', cprogs, [CRASH_CLASSES[4]], cap=4 if ctx.quick() else 10)
+        if not ctx.quick():
+            runs += enumerate_crashes(ctx, 'C02', cprogs, [CRASH_CLASSES[2], CRASH_CLASSES[3]], cap=6)
     selftest(ctx, runs)
     write_evidence(ctx, 'fault_enumeration',
                    'programs = write/flush/compact/reopen sequences drawn by TLC simulation of GEN_Store; for each program the real engine is '
